@@ -118,11 +118,30 @@ class TLCResult:
         self.tail = ""
 
 
-def _spec_hash(files, cfg, extra):
+def _closure(specdir, module):
+    """the specification files a module depends on (EXTENDS / INSTANCE, transitively) among those of /verif/spec"""
+    seen, todo = [], [module]
+    while todo:
+        m = todo.pop()
+        f = os.path.join(specdir, m + ".tla")
+        if m in seen or not os.path.exists(f):
+            continue
+        seen.append(m)
+        text = open(f).read()
+        for grp in re.findall(r"^\s*EXTENDS\s+([^\n]+)", text, re.M):
+            todo += [x.strip() for x in grp.split(",")]
+        todo += re.findall(r"INSTANCE\s+(\w+)", text)
+    return [os.path.join(specdir, m + ".tla") for m in seen]
+
+
+def _spec_hash(files, cfg, extra, data_files=None):
     h = hashlib.sha256()
     for f in sorted(files):
-        h.update(f.encode())
+        h.update(os.path.basename(f).encode())
         h.update(open(f, "rb").read())
+    for name in sorted(data_files or {}):
+        h.update(name.encode())
+        h.update(open(data_files[name], "rb").read())
     h.update(cfg.encode())
     h.update(json.dumps(extra, sort_keys=True).encode())
     return h.hexdigest()[:24]
@@ -133,15 +152,17 @@ def run_tlc(module, cfg, scratch, data_files=None, workers=16, timeout=1800, sim
     """Runs TLC on spec/<module>.tla with the given cfg text in a scratch copy of /verif/spec.
 
     Records printed by the specification with PrintT(ToJson(..)) are returned parsed. With cache=True the parsed output is
-    cached under /verif/.cache keyed by the content of all specification files, the cfg and the options: TLC's output is
-    a function of the specification only, never of the repository."""
+    cached under /verif/.cache keyed by the content of the specification files the module depends on, the cfg, the options
+    and the data files: TLC's output is a function of these only, never of the repository (callers pass cache=True only for
+    runs whose data files are themselves generated from the specification, e.g. layout jobs - not for recorded traces)."""
     specdir = os.path.join(VERIF, "spec")
     files = [os.path.join(specdir, f) for f in os.listdir(specdir) if f.endswith(".tla")]
     extra = {"module": module, "simulate": simulate, "depth": depth, "seed": seed, "workers": workers if simulate else 0, "defs": defs}
     res = TLCResult()
     ck = None
-    if cache and not data_files:
-        ck = os.path.join(CACHE, "tlc-" + _spec_hash(files, cfg, extra) + ".json")
+    if cache:
+        # keyed by the module's own dependency closure, the cfg, the options and the content of the data files handed over
+        ck = os.path.join(CACHE, "tlc-" + _spec_hash(_closure(specdir, module), cfg, extra, data_files) + ".json")
         if os.path.exists(ck):
             try:
                 d = json.load(open(ck))
